@@ -337,6 +337,14 @@ func (c *c04) values() []c04Val {
 	elem("[{}][0]", "{fa")
 	elem("[{a:1}][0]", "{fn")
 	_ = ls
+	// a call of a function without a result is not a value: rejected in every position, also inside literals
+	proc := c04Val{Kind: "variable", Prelude: "func p0\n    print 1\nend\n", Src: "(p0)", W: ""}
+	add(proc)
+	add(c.arrLit(proc))
+	add(c.mapLit(proc))
+	add(c04Val{Kind: "expression", Prelude: proc.Prelude, Src: "[1 (p0)]", W: ""})
+	add(c04Val{Kind: "expression", Prelude: proc.Prelude, Src: "[[(p0)]]", W: ""})
+	add(c04Val{Kind: "expression", Prelude: proc.Prelude, Src: "{a:1 b:(p0)}", W: ""})
 	return out
 }
 
@@ -481,6 +489,9 @@ func RunC04(d *Driver) *Report {
 				switch {
 				case got == "crash":
 					cs.Spec = "the parser never crashes"
+					r.Violation(cs)
+				case strings.Contains(v.Src, "(p0)"):
+					cs.Spec = "reject (the call of a function without a result type has no value: it cannot be assigned, passed, returned or stored)"
 					r.Violation(cs)
 				case (v.Kind == "variable" || v.Kind == "constant") && !strings.ContainsAny(v.Src, "+*"):
 					cs.Spec = want + " (docs/spec.md Assignability, by accepts_var_iff / accepts_const_iff)"
